@@ -73,7 +73,7 @@ impl<'a> Analyzer<'a> {
     fn visit(&mut self, expr: &'a Expr) -> Result<Info<'a>> {
         let start_group = self.group_ix;
         let mut children = Vec::new();
-        let mut min_size = 0;
+        let mut min_size: usize = 0;
         let mut const_size = false;
         let mut hard = false;
         match *expr {
@@ -97,7 +97,7 @@ impl<'a> Analyzer<'a> {
                 const_size = true;
                 for child in v {
                     let child_info = self.visit(child)?;
-                    min_size += child_info.min_size;
+                    min_size = min_size.saturating_add(child_info.min_size);
                     const_size &= child_info.const_size;
                     hard |= child_info.hard;
                     children.push(child_info);
@@ -140,7 +140,7 @@ impl<'a> Analyzer<'a> {
                 ref child, lo, hi, ..
             } => {
                 let child_info = self.visit(child)?;
-                min_size = child_info.min_size * lo;
+                min_size = child_info.min_size.saturating_mul(lo);
                 const_size = child_info.const_size && lo == hi;
                 hard = child_info.hard;
                 children.push(child_info);
@@ -191,7 +191,9 @@ impl<'a> Analyzer<'a> {
 
                 // the false branch starts from the position before the condition
                 min_size = min(
-                    child_info_condition.min_size + child_info_truth.min_size,
+                    child_info_condition
+                        .min_size
+                        .saturating_add(child_info_truth.min_size),
                     child_info_false.min_size,
                 );
                 const_size = child_info_condition.const_size
